@@ -788,10 +788,6 @@ func (c *Compiler) getFieldMapFromAnonymousParent(fields []*StructFieldCode, dep
 	for _, field := range fields {
 		if field.isAnonymous {
 			for k, v := range c.getAnonymousFieldMap(field, depth+1) {
-				// Do not handle tagged key when embedding more than once
-				for _, vv := range v {
-					vv.isTaggedKey = false
-				}
 				fieldMap[k] = append(fieldMap[k], v...)
 			}
 			continue
